@@ -299,7 +299,16 @@ func c11ConnScenario(in sx.V) sx.V {
 		mu.Unlock()
 		s := &c11LiveSession{conn: conn, tx: c11AesCTR(p[0:32], p[64:80]), nonces: nonces}
 		go s.serve(c11AesCTR(p[32:64], p[80:96]))
-		_ = s.send(nil) // the handshake reply: an empty packet
+		// the handshake reply: an empty packet, delivered in two TCP segments
+		// (cut after 4 / 36 / 67 / 1 bytes in turn)
+		f := c11RefFrame(nonces.Bytes(32), nil)
+		s.tx.XORKeyStream(f, f)
+		mu.Lock()
+		cut := []int{4, 36, 67, 1}[(handshakes-1)%4]
+		mu.Unlock()
+		_, _ = conn.Write(f[:cut])
+		time.Sleep(12 * time.Millisecond)
+		_, _ = conn.Write(f[cut:])
 		return s
 	}
 	results := make([][][]byte, len(sessions))
@@ -489,11 +498,37 @@ func c11ConnReconnect(r *prng.R, drops []string) c11ConnCase {
 	return c11ConnCase{in: sx.L(sx.Bytes(r.Bytes(32)), sx.L(ss...)), class: "conn|" + strings.Join(drops, "-"), want: want, n: len(drops)}
 }
 
+// a session is dropped early and its successor carries steady traffic for more
+// than reconnectTimeout: nothing left over from the dead session (its reader,
+// its timers) may touch the new one
+func c11ConnDropThenSteady(r *prng.R, drops []string) c11ConnCase {
+	var ss []sx.V
+	var want [][]byte
+	for k, d := range drops {
+		s, data := c11ConnSession(r, k, d, []int{60, 80 + r.Intn(100), 100}, 1, nil)
+		ss = append(ss, s)
+		want = append(want, data...)
+	}
+	var gaps []int
+	total := 0
+	for total < 11800 {
+		g := 250 + r.Intn(500)
+		gaps = append(gaps, g)
+		total += g
+	}
+	s, data := c11ConnSession(r, len(drops), "end", gaps, 2, c11FilterBoundary(r, false)[:4])
+	ss = append(ss, s)
+	want = append(want, data...)
+	return c11ConnCase{in: sx.L(sx.Bytes(r.Bytes(32)), sx.L(ss...)), class: "conn|" + strings.Join(drops, "-") + "-steady12s", want: want, n: len(drops) + 1}
+}
+
 func c11ConnCases(c *Ctx) []c11ConnCase {
 	r := c.R
-	cs := []c11ConnCase{c11ConnSteady(r, 1000), c11ConnReconnect(r, []string{"close", "silence", "end"})}
+	cs := []c11ConnCase{c11ConnSteady(r, 1000), c11ConnReconnect(r, []string{"close", "silence", "end"}),
+		c11ConnDropThenSteady(r, []string{"close"})}
 	if c.Thorough() {
-		cs = append(cs, c11ConnSteady(r, 6000), c11ConnReconnect(r, []string{"silence", "close", "close", "end"}),
+		cs = append(cs, c11ConnSteady(r, 6000), c11ConnDropThenSteady(r, []string{"close", "close"}),
+			c11ConnDropThenSteady(r, []string{"silence"}), c11ConnReconnect(r, []string{"silence", "close", "close", "end"}),
 			c11ConnReconnect(r, []string{"close", "close", "close", "close", "end"}))
 	}
 	for _, k := range cs {
